@@ -52,6 +52,20 @@ theorem C14_dynamic_content (c b : Bytes) (d : Nat) :
   · intro h; simp only [dynSpec]; rw [if_neg (by omega)]
   · intro h; simp only [dynSpec]; rw [if_pos h]
 
+/-- "reading it back returns that content": the reader `GetReader()` hands out over the content (`MemoryReader` model, u64 guards),
+    asked for the whole length, returns exactly the content and ends at its end; any longer read is refused without moving -/
+theorem C14_dynamic_readback (c : Bytes) (hc : c.length < W64) :
+    MemR.step { data := c, pos := 0 } (.read c.length) = (.bytes c, { data := c, pos := c.length }) ∧
+    ∀ k, c.length < k → k < W64 → MemR.step { data := c, pos := 0 } (.read k) = (.err, { data := c, pos := 0 }) := by
+  have hi : RSpec.Inv ({ data := c, pos := 0 } : RSpec) := ⟨Nat.zero_le _, hc⟩
+  constructor
+  · rw [mem_refines _ hi (.read c.length) hc]
+    simp [RSpec.step, RSpec.window]
+  · intro k hk hk64
+    rw [mem_refines _ hi (.read k) hk64]
+    simp only [RSpec.step, Nat.zero_add]
+    rw [if_neg (by omega)]
+
 /-! ## size-prefixed writes refuse containers that do not fit the prefix -/
 
 theorem C14_prefix_refuses (width count : Nat) (signed : Bool) (payload : Bytes) (h : count > prefixMax width signed) :
